@@ -57,7 +57,11 @@ def init (n gens : Nat) : State :=
   { n := n, gens := gens, thr := { pc := .start } :: List.replicate n { pc := .start } }
 
 def count (s : State) (i : Nat) : Nat := if i = 0 then s.c0 else s.c1
-def setCount (s : State) (i v : Nat) : State := if i = 0 then { s with c0 := v } else { s with c1 := v }
+def setCount (s : State) (i v : Nat) : State :=
+  { s with c0 := if i = 0 then v else s.c0, c1 := if i = 0 then s.c1 else v }
+
+/-- `step_ ? 0 : 1` -/
+def other (i : Nat) : Nat := if i = 0 then 1 else 0
 
 def pcOf (s : State) (t : Nat) : Pc := (s.thr[t]?.map (·.pc)).getD .finished
 /-- update the record of thread `t` -/
@@ -110,7 +114,7 @@ def step (s : State) (t : Nat) (_c : Nat) : Option (StepOut State) :=
               fun th => { th with pc := .cvwait cur, arrived := th.arrived + 1 }) [ev t "lock(m)"]
       else
         -- last thread has reached the barrier: step_ = step_ ? 0 : 1; counts_[step_] = 0; lambda();
-        let st' := if s.step = 0 then 1 else 0
+        let st' := other s.step
         let s1 := setCount (setCount { s with owner := some t, step := st', actions := s.actions + 1 } cur cnt) st' 0
         out (upd s1 t fun th => { th with pc := .notify, arrived := th.arrived + 1 })
             [ev t "lock(m)", ev t s!"act{s.actions}"]
